@@ -410,6 +410,9 @@ def worker_task(task: dict) -> dict:
         st["probes"][name] = st["probes"].get(name, 0) + n
 
     for i in task["indices"]:
+        if runner.past(task.get("deadline")):
+            st["probes"]["tasks_cut_short_by_wall_clock_cap"] = 1
+            break
         rec = gen_history(i, vseed, runner.POOL, tier)
         rec, res, viol = execute_record(rec)
         st["runs"] += 1
@@ -676,7 +679,8 @@ def main() -> int:
     print(f"VERIF_SEED={vseed} property={PROP} tier={args.tier} tree={core.src_dir()} workers={core.workers()}")
     nruns = args.runs if args.runs is not None else int(os.environ.get("VERIF_RUNS") or (6000 if args.tier == "quick" else 80_000))
     nfresh = args.fresh if args.fresh is not None else (32 if args.tier == "quick" else 256)
-    tasks = [{"indices": ch, "vseed": vseed, "tier": args.tier, "digests": args.digests}
+    deadline = runner.wall_cap(args.tier)
+    tasks = [{"indices": ch, "vseed": vseed, "tier": args.tier, "digests": args.digests, "deadline": deadline}
              for ch in runner.chunks(list(range(nruns)), 100 if nruns > 20000 else 20)]
     wp = isolate.Pool(core.workers())
     agg = {k: 0 for k in ("runs", "ops", "aborts_planned", "deep_checked", "additions", "obj_additions", "objects",
